@@ -682,6 +682,13 @@ impl Model {
                 self.accept_uncertain = false;
                 continue;
             }
+            if self.conns[serial].tainted && matches!(p, MPacket::PubAck(_) | MPacket::PubRec(_) | MPacket::PubComp(_)) {
+                // an earlier acknowledgement of this connection had an unpredictable outcome:
+                // the model no longer knows which forward the broker considers the oldest
+                eff.unknown = true;
+                uncertain = true;
+                continue;
+            }
             match &p {
                 MPacket::Publish { qos, pkid, .. } => match qos {
                     2 => {
